@@ -281,32 +281,53 @@ def shape_lock_entry(fn):
 
 
 def shape_hash(fn):
-    """core_md5: (selectsCols, cast literal, significand bits of what reaches the hash function).
+    """core_md5: (selectsCols, perColumn, cast literal, significand bits of what reaches the hash function).
 
-    Follows the assignments to `data` inside the loop over CORE_DATA.  Known steps: `getattr(self, prop)`,
-    `data[cols]` (column selection), `data.values` / `data.to_numpy()` without dtype (pandas common dtype: float64
-    for the int64/float64 node table, 53 significand bits), `np.ascontiguousarray(data)`.  Every other assignment to
-    `data` is reported literally as a cast; the hash calls must receive `data` itself."""
-    selects = False
+    Two known shapes of the DataFrame branch:
+      * per column (current): `data = [data[c].values for c in (cols if cols else data.columns)]` and every element is
+        fed to one hasher (`hasher.update(np.ascontiguousarray(d))`): each column reaches the hash function in its own
+        dtype, nothing is converted (perColumn = True, bits = 0: unused);
+      * whole table (before): `data = data[cols]`, `data = data.values` -> pandas' common dtype, float64 for the
+        int64/float64 node table (53 significand bits).
+    Known neutral steps: `getattr(self, prop)`, `[data]`, `np.ascontiguousarray(..)`.  Every other assignment to `data`
+    is reported literally as a cast; the hash calls must receive `data` / the loop variable over `data` itself."""
+    selects = per_column = False
     casts = []
-    plain = {'getattr(self, prop)', 'data.values', 'data.to_numpy()', 'np.ascontiguousarray(data)'}
+    plain = {'getattr(self, prop)', 'data.values', 'data.to_numpy()', 'np.ascontiguousarray(data)', '[data]'}
+    percol = {'[data[c].values for c in (cols if cols else data.columns)]', '[data[c].values for c in cols]',
+              '[data[c].to_numpy() for c in (cols if cols else data.columns)]'}
+    loopvars = set()
+    for n in ast.walk(fn):
+        if isinstance(n, ast.For) and _src(n.iter) == 'data' and isinstance(n.target, ast.Name):
+            loopvars.add(n.target.id)
     for n in ast.walk(fn):
         if isinstance(n, ast.Assign) and any(isinstance(t, ast.Name) and t.id == 'data' for t in n.targets):
             v = _src(n.value)
             if v == 'data[cols]':
                 selects = True
+            elif v in percol:
+                selects = per_column = True
             elif v not in plain:
                 casts.append(v)
         if isinstance(n, ast.AugAssign) and isinstance(n.target, ast.Name) and n.target.id == 'data':
             casts.append(_src(n))
-        if isinstance(n, ast.Call) and _src(n.func) in ('xxhash.xxh128', 'hashlib.md5', 'xxhash.xxh64', 'xxhash.xxh3_128',
-                                                        'hashlib.sha1', 'hashlib.sha256'):
-            arg = _src(n.args[0]) if n.args else ''
-            if arg != 'data':
-                casts.append(f'hash({arg})')
+        if isinstance(n, ast.Call) and (_src(n.func) in ('xxhash.xxh128', 'hashlib.md5', 'xxhash.xxh64', 'xxhash.xxh3_128',
+                                                         'hashlib.sha1', 'hashlib.sha256')
+                                        or (isinstance(n.func, ast.Attribute) and n.func.attr == 'update'
+                                            and _src(n.func.value) in ('hasher', 'h'))):
+            if not n.args:
+                continue            # `xxhash.xxh128()`: an empty hasher that is fed with `update`
+            arg = n.args[0]
+            if isinstance(arg, ast.Call) and _src(arg.func) == 'np.ascontiguousarray' and len(arg.args) == 1 and not arg.keywords:
+                arg = arg.args[0]
+            a = _src(arg)
+            if not (a == 'data' or a in loopvars):
+                casts.append(f'hash({a})')
     cast = '; '.join(casts)
-    if not casts:
-        bits = 53
+    if per_column and not loopvars:
+        cast = (cast + '; ' if cast else '') + 'per-column list not fed element-wise'
+    if cast == '':
+        bits = 0 if per_column else 53
     elif len(casts) == 1 and 'hash(' not in cast and 'float64' in cast and 'float32' not in cast:
         bits = 53
     elif len(casts) == 1 and 'hash(' not in cast and ('float32' in cast or "'f4'" in cast or 'single' in cast):
@@ -315,7 +336,51 @@ def shape_hash(fn):
         bits = 11
     else:
         bits = 0
-    return selects, cast, bits
+    return selects, per_column and cast == '', cast, bits
+
+
+def shape_iops(base_cls, other_classes):
+    """Do the in-place operators validate the caches before they run?
+
+    True iff each of `BaseNeuron.__imul__/__itruediv__/__iadd__/__isub__` calls a method M of `self` (no arguments)
+    before its `return self.__op__(other, copy=False)`, M is `if not self.is_locked and self.is_stale:
+    self._clear_temp_attr()` (or the nested form), and no neuron class overrides the four operators.  False iff none of
+    them mentions such a call.  A mixture is a protocol the model does not know (error)."""
+    ops = ['__imul__', '__itruediv__', '__iadd__', '__isub__']
+    for cls in other_classes:
+        for m in ops:
+            if _method(cls, m) is not None:
+                raise ValueError(f'{cls.name}.{m} overrides the in-place operator of BaseNeuron')
+    found = []
+    for m in ops:
+        fn = _method(base_cls, m)
+        if fn is None:
+            raise ValueError(f'BaseNeuron.{m} not found')
+        body = [b for b in fn.body if not (isinstance(b, ast.Expr) and isinstance(b.value, ast.Constant))]
+        calls = [b for b in body[:-1] if isinstance(b, ast.Expr) and isinstance(b.value, ast.Call)
+                 and isinstance(b.value.func, ast.Attribute) and _src(b.value.func.value) == 'self'
+                 and not b.value.args and not b.value.keywords]
+        ok = False
+        for c in calls:
+            mm = _method(base_cls, c.value.func.attr)
+            if mm is None:
+                continue
+            stm = [b for b in mm.body if not (isinstance(b, ast.Expr) and isinstance(b.value, ast.Constant))]
+            if len(stm) != 1 or not isinstance(stm[0], ast.If) or stm[0].orelse:
+                continue
+            t, bd = stm[0].test, stm[0].body
+            if _src(t) == 'not self.is_locked and self.is_stale' and len(bd) == 1 and _src(bd[0]) == 'self._clear_temp_attr()':
+                ok = True
+            elif _src(t) == 'not self.is_locked' and len(bd) == 1 and isinstance(bd[0], ast.If) and not bd[0].orelse \
+                    and _src(bd[0].test) == 'self.is_stale' and len(bd[0].body) == 1 and _src(bd[0].body[0]) == 'self._clear_temp_attr()':
+                ok = True
+        mentions = any(isinstance(n, ast.Attribute) and n.attr in ('is_stale', '_clear_temp_attr') for n in ast.walk(fn))
+        if mentions and not ok:
+            raise ValueError(f'BaseNeuron.{m}: staleness handling of an unknown shape')
+        found.append(ok)
+    if any(found) and not all(found):
+        raise ValueError('only some of the in-place operators validate the caches first')
+    return all(found)
 
 
 GRAPH_ATTR = {'graph': '_graph_nx', '_graph_nx': '_graph_nx', 'igraph': '_igraph', '_igraph': '_igraph'}
@@ -593,17 +658,24 @@ def extract(repo: Path):
     ln = [n for n in deco.body if isinstance(n, ast.FunctionDef) and n.name == 'lock_neuron']
     lock_finally = shape_lock(ln[0]) if ln else False
     lock_checks = shape_lock_entry(ln[0]) if ln else False
-    hash_selects, hash_cast, hash_bits = shape_hash(_method(BN, 'core_md5'))
+    hash_selects, hash_native, hash_cast, hash_bits = shape_hash(_method(BN, 'core_md5'))
     no_copy, copy_clears = shape_copy(_method(TN, 'copy'))
     drops = shape_getstate(_method(TN, '__getstate__'))
     shared = shape_copy_sharing(_method(TN, 'copy'))
+    others = []
+    for fname, cname in (('mesh.py', 'MeshNeuron'), ('voxel.py', 'VoxelNeuron'), ('dotprop.py', 'Dotprops')):
+        try:
+            others.append(_class(ast.parse((repo / 'navis/core' / fname).read_text()), cname))
+        except (OSError, ValueError):
+            pass
+    iop_validates = shape_iops(BN, [TN] + others)
     editors = extract_editors(repo)
     return dict(tempAttr=temp_attr, coreTable=table, coreCols=cols, views=views, clearSites=sites,
                 lockedFns=locked_fns, getstateDrops=drops, copyNoCopy=no_copy, copyClearsIfStale=copy_clears,
                 isStaleRecomputes=recomputes, isStaleSticky=sticky, clearGuardsLock=guards, clearRestamps=restamps,
                 clearDeletes=deletes, wrapperChecks=wrapper, exclPrefix=excl_prefix, lockFinally=lock_finally,
-                lockChecksStale=lock_checks, hashSelectsCols=hash_selects, hashCast=hash_cast, hashBits=hash_bits,
-                sharedOnCopy=shared, editors=editors)
+                lockChecksStale=lock_checks, hashSelectsCols=hash_selects, hashNative=hash_native, hashCast=hash_cast, hashBits=hash_bits,
+                sharedOnCopy=shared, editors=editors, iopValidates=iop_validates)
 
 
 def generate(repo: Path):
@@ -639,7 +711,7 @@ def generate(repo: Path):
     L.append(f'  getstateDrops := {lstr(d["getstateDrops"])}')
     L.append(f'  copyNoCopy := {lstr(d["copyNoCopy"])}')
     for k in ('copyClearsIfStale', 'isStaleRecomputes', 'isStaleSticky', 'clearGuardsLock', 'clearRestamps',
-              'clearDeletes', 'wrapperChecks', 'exclPrefix', 'lockFinally', 'lockChecksStale', 'hashSelectsCols'):
+              'clearDeletes', 'wrapperChecks', 'exclPrefix', 'lockFinally', 'lockChecksStale', 'hashSelectsCols', 'hashNative', 'iopValidates'):
         L.append(f'  {k} := {lb(d[k])}')
     L.append(f'  hashCast := {lstr([d["hashCast"]])[1:-1]}')
     L.append(f'  hashBits := {d["hashBits"]}')
@@ -656,8 +728,8 @@ def generate(repo: Path):
             'locked_fns': d['lockedFns'], 'getstate_drops': d['getstateDrops'], 'copy_no_copy': d['copyNoCopy'],
             'flags': {k: d[k] for k in ('copyClearsIfStale', 'isStaleRecomputes', 'isStaleSticky', 'clearGuardsLock',
                                         'clearRestamps', 'clearDeletes', 'wrapperChecks', 'exclPrefix', 'lockFinally',
-                                        'lockChecksStale', 'hashSelectsCols')},
-            'hash': {'cast': d['hashCast'], 'bits': d['hashBits']},
+                                        'lockChecksStale', 'hashSelectsCols', 'iopValidates')},
+            'hash': {'cast': d['hashCast'], 'bits': d['hashBits'], 'native_per_column': d['hashNative']},
             'shared_on_copy': d['sharedOnCopy'],
             'inplace_editors': [{k: e[k] for k in ('fn', 'attr', 'detaches')} for e in d['editors']]}
     return 'CacheSpec.lean', '\n'.join(L), meta
